@@ -441,3 +441,136 @@ Theorem C10_draw_closes_iterator :
   forall o s', eval cfg_draw false sk_Renderable_draw (init vs) o s' -> iter_open s' = false.
 Proof. exact draw_closes_iterator. Qed.
 Print Assumptions C10_draw_closes_iterator.
+
+(** * Part 3: "never used afterwards" for EVERY use, not only [_render_]
+
+    A use of the render data is every call that hands it to renderable-defined code:
+    [_render_] / [next(render_iter)] ([Render]) and the interrupted-draw hook
+    [_handle_interrupted_draw_] ([HandleInterrupt]).  [UseMon.evalU] is [Eff.eval] with one
+    ghost: "some use was made while the data-unfinalized obligation was not open" (marked
+    by every rule of [Op o], completed or faulted).  The theorems below are about the
+    skeletons translated from the source at every run, and say that the ghost stays false on
+    EVERY path, iteration count and fault position. *)
+From TI Require Import model.UseMon proofs.UseMonSound proofs.SkelC10Use.
+
+(** the in-language monitor used to run the shared abstract interpreter is sound for the
+    ghost semantics, for every skeleton that does not mention the two ghost variables *)
+Theorem C10_use_monitor_sound : forall C nv p,
+  fresh nv (S nv) p = true ->
+  analyze C nv (monitored nv (S nv) p) (no_bad_use (S nv)) = true ->
+  forall vs, length vs = nv ->
+  forall o s' b', evalU C false p (init vs, false) o (s', b') -> b' = false.
+Proof. exact monitored_sound. Qed.
+Print Assumptions C10_use_monitor_sound.
+
+(** [draw()], still and animated, EVERY call a fault position (write, flush, sleep, frame
+    render, the hook itself, any helper; KeyboardInterrupt or Exception; before or after
+    the call took effect): neither [_render_] nor the interrupted-draw hook is ever
+    handed finalized render data *)
+Theorem C10_draw_no_use_after_finalize :
+  forall vs, length vs = nv_Renderable_draw ->
+  forall o s' b', evalU cfg_all false sk_Renderable_draw (init vs, false) o (s', b') -> b' = false.
+Proof. exact draw_no_use_after_finalize. Qed.
+Print Assumptions C10_draw_no_use_after_finalize.
+
+(** the same with exactly the fault positions named by the property (frame render, write,
+    flush, sleep) *)
+Theorem C10_draw_no_use_after_finalize_io :
+  forall vs, length vs = nv_Renderable_draw ->
+  forall o s' b', evalU cfg_draw false sk_Renderable_draw (init vs, false) o (s', b') -> b' = false.
+Proof. exact draw_no_use_after_finalize_io. Qed.
+Print Assumptions C10_draw_no_use_after_finalize_io.
+
+(** [_animate_] called on its own with live data (every call but the caller's creation of
+    the data a fault position): no use of finalized data, and the data is still
+    unfinalized at every exit (the caller owns it) *)
+Theorem C10_animate_no_use_after_finalize :
+  forall vs, length vs = nv_Renderable__animate_ ->
+  forall o s' b', evalU cfg_callee false animate_prog (init vs, false) o (s', b') -> b' = false.
+Proof. exact animate_no_use_after_finalize. Qed.
+Print Assumptions C10_animate_no_use_after_finalize.
+
+Theorem C10_animate_leaves_data_unfinalized :
+  forall vs, length vs = nv_Renderable__animate_ ->
+  forall o s', eval cfg_callee false animate_prog (init vs) o s' -> unfin s' = true.
+Proof. exact animate_leaves_data_unfinalized. Qed.
+Print Assumptions C10_animate_leaves_data_unfinalized.
+
+Theorem C10_render_no_use_after_finalize :
+  forall vs, length vs = nv_Renderable_render ->
+  forall o s' b', evalU cfg_all false sk_Renderable_render (init vs, false) o (s', b') -> b' = false.
+Proof. exact render_no_use_after_finalize. Qed.
+Print Assumptions C10_render_no_use_after_finalize.
+
+Theorem C10_str_no_use_after_finalize :
+  forall vs, length vs = nv_Renderable___str__ ->
+  forall o s' b', evalU cfg_all false sk_Renderable___str__ (init vs, false) o (s', b') -> b' = false.
+Proof. exact str_no_use_after_finalize. Qed.
+Print Assumptions C10_str_no_use_after_finalize.
+
+Theorem C10_init_render_no_use_after_finalize :
+  forall vs, length vs = nv_Renderable__init_render_ ->
+  forall o s' b', evalU cfg_all false init_render_prog (init vs, false) o (s', b') -> b' = false.
+Proof. exact init_render_no_use_after_finalize. Qed.
+Print Assumptions C10_init_render_no_use_after_finalize.
+
+(** the statement has teeth: "release the data of a one-off render before writing it" is
+    accepted by the exactly-once analysis and has a run in which the hook gets finalized data *)
+Theorem C10_early_finalize_has_bad_use :
+  analyze cfg_draw 0 early_still (fun _ s => negb (unfin s)) = true /\
+  exists s', evalU cfg_draw false early_still (init [], false) (ORaise KI) (s', true).
+Proof. exact (conj early_still_finalizes early_still_bad_use). Qed.
+Print Assumptions C10_early_finalize_has_bad_use.
+
+(** * Part 4: the same on an executable model of [draw] / [_animate_] / [render] / [__str__]
+    that also covers [_clear_frame_] and the finalizer's own entry (model/DrawUse.v): for
+    EVERY behaviour of the frame source, EVERY position k and kind of a failing stream call
+    (incl. the calls of the clean-up blocks) and EVERY interrupted sleep, no entry into
+    renderable-defined code sees finalized render data and the finalizer is entered exactly
+    once over the life of the data (garbage collection included) *)
+From TI Require Import model.DrawUse model.DrawUseTie proofs.DrawUseProofs proofs.DrawUseTieProofs.
+
+Theorem C10_drawio_entries_ok : forall F nested anim l,
+  entries_ok (evs (snd (run_draw F false nested anim l))) = true.
+Proof. exact drawio_entries_ok. Qed.
+Print Assumptions C10_drawio_entries_ok.
+
+(** every exit of [draw] that is not an exception has finalized the data itself *)
+Theorem C10_drawio_returns_finalized : forall F nested anim l,
+  match fst (run_draw F false nested anim l) with
+  | RExc _ _ => True
+  | RNorm s | RRet s => fz s = true
+  end.
+Proof. exact drawio_returns_finalized. Qed.
+Print Assumptions C10_drawio_returns_finalized.
+
+(** [nested]: [draw]'s clean-up block as a straight line (a stream call of the clean-up that
+    raises leaves finalization to [RenderData.__del__]) or with [finalize()] in a nested
+    [finally]; with the latter EVERY exit of [draw] has finalized the data itself *)
+Theorem C10_drawio_nested_always_finalized : forall F anim l,
+  fz (state_of (fst (run_draw F false true anim l))) = true.
+Proof. exact drawio_nested_always_finalized. Qed.
+Print Assumptions C10_drawio_nested_always_finalized.
+
+Theorem C10_renderio_entries_ok : forall F l,
+  entries_ok (evs (snd (run_render F l))) = true.
+Proof. exact renderio_entries_ok. Qed.
+Print Assumptions C10_renderio_entries_ok.
+
+(** the variant that finalizes a one-off render's data before writing it: still exactly
+    one finalizer call on every path, but the interrupted-draw hook is handed finalized data *)
+Theorem C10_drawio_early_finalize_refuted :
+  (forall F l, count_fin (evs (snd (run_draw F true false false l))) = 1%nat) /\
+  let F := {| f_io := Some (0%nat, XKI); f_sleep := None |} in
+  rev (evs (snd (run_draw F true false false [PFrame true])))
+    = [(HRender, false); (HFinalize, false); (HInterrupt, true)]
+  /\ entries_ok (evs (snd (run_draw F true false false [PFrame true]))) = false.
+Proof. exact (conj early_finalize_once early_finalize_refuted). Qed.
+Print Assumptions C10_drawio_early_finalize_refuted.
+
+(** the judge of the correspondence is consistent with these theorems: observations that
+    agree with the model satisfy the specification side *)
+Theorem C10_drawio_judge_consistent : forall t,
+  d_async t = false -> dmodel_ok t = true -> dspec_ok t = true.
+Proof. exact model_agreement_implies_spec. Qed.
+Print Assumptions C10_drawio_judge_consistent.
